@@ -156,19 +156,28 @@ def core_order_cases():
     for mode in ('thread', 'process', 'async'):
         d12 = [['d', i] for i in range(12)]
         for extra in (
-            {'conc': 2, 'src': d12, 'call_fail': {3: 21, 7: 22}, 'return_exc': True},
-            {'conc': 2, 'src': d12, 'call_fail': {3: 21, 7: 22}},
-            {'conc': 3, 'src': d12, 'has_pre': True, 'pre_fail': {2: 11}, 'call_fail': {5: 20}, 'return_exc': True, 'return_x': True},
+            {'conc': 2, 'src': d12, 'call_fail': {3: 21, 7: 23}, 'return_exc': True},
+            {'conc': 2, 'src': d12, 'call_fail': {3: 23, 7: 22}},
+            {'conc': 3, 'src': d12, 'has_pre': True, 'pre_fail': {2: 13}, 'call_fail': {5: 20}, 'return_exc': True, 'return_x': True},
             {'conc': 3, 'src': d12[:6] + [['e', 2]]},
             {'conc': 4, 'src': [['d', i] for i in range(30)], 'stop_after': 5, 'scale': 3, 'return_x': True},
         ):
-            c = dict(base, mode=mode, **extra)
+            c = dict(base, mode=mode, iters=2, **extra)
             c['cap'] = 2 * c['conc']
             out.append(c)
     return out
 
 
 def gen_order_case(rng, idx):
+    c = _gen_order_case(rng, idx)
+    if c['mode'] == 'process':
+        # CPython's process pool itself tests the worker's exception by truth value (concurrent/futures/process.py,
+        # _process_result_item): a falsy exception raised in a pool process is lost before mpservice sees it
+        c['call_fail'] = {k: (22 if v % 4 == 3 else v) for k, v in c['call_fail'].items()}
+    return c
+
+
+def _gen_order_case(rng, idx):
     core = core_order_cases()
     if idx < len(core):
         return core[idx]
@@ -190,45 +199,50 @@ def gen_order_case(rng, idx):
     return {'mode': mode, 'conc': conc, 'cap': 2 * conc, 'src': table, 'has_pre': has_pre, 'pre_fail': pre_fail, 'call_fail': call_fail,
             'return_x': rng.random() < 0.4, 'return_exc': rng.random() < 0.5,
             'stop_after': rng.choice([None, None, None, 1, 2, 3, 5, 8]), 'scale': rng.choice([0, 1, 3]),
-            'cons_ms': rng.choice([0, 0, 2, 6])}
+            'cons_ms': rng.choice([0, 0, 2, 6]), 'iters': rng.choice([1, 2, 2, 3])}
+
+
+_cid = itertools.count()
 
 
 def run_order_case(c):
+    """-> one observation per iteration of the same Stream object (c['iters'] of them)"""
     from mpservice.streamer import Stream
     from harness import parreal_workers as W
     from harness.events import v_exc
     pf = {int(k): v for k, v in c['pre_fail'].items()}
     cf = {int(k): v for k, v in c['call_fail'].items()}
     off = PRE_OFFSET if c['has_pre'] else 0
+    cid = next(_cid)
 
-    def source():
-        for kind, v in c['src']:
-            if kind == 'd':
-                yield v
-            else:
-                raise W.SrcErr(v)
+    class Source:          # can be iterated again, like a list
+        def __iter__(self):
+            for kind, v in c['src']:
+                if kind == 'd':
+                    yield v
+                else:
+                    raise W.SrcErr(v)
 
     def pre(x):
         if x in pf:
-            raise W.PreErr(pf[x])
+            raise (W.FalsyPreErr if pf[x] % 4 == 1 else W.PreErr)(pf[x])
         return x + PRE_OFFSET
 
-    kw = {'fail': cf, 'off': off, 'scale': c['scale'], 'return_x': c['return_x'], 'return_exceptions': c['return_exc']}
+    kw = {'fail': cf, 'off': off, 'scale': c['scale'], 'return_x': c['return_x'], 'return_exceptions': c['return_exc'],
+          'cid': None if c['mode'] == 'process' else cid}
     if c['has_pre']:
         kw['preprocessor'] = pre
     if c['mode'] == 'async':
-        s = Stream(source()).parmap(W.af, concurrency=c['conc'], **kw)
+        s = Stream(Source()).parmap(W.af, concurrency=c['conc'], **kw)
     else:
-        s = Stream(source()).parmap(W.f, executor=c['mode'], concurrency=c['conc'], **kw)
+        s = Stream(Source()).parmap(W.f, executor=c['mode'], concurrency=c['conc'], **kw)
 
     def code(y):
         if isinstance(y, BaseException):
             return v_exc(y.code) if hasattr(y, 'code') and isinstance(y.code, int) else -999999
-        return y
+        return y if isinstance(y, int) else -999998        # (None: a failure that was swallowed)
 
-    res = {}
-
-    def body():
+    def body(res):
         out = []
         outcome = None
         it = iter(s)
@@ -255,14 +269,22 @@ def run_order_case(c):
                 close()
         res['received'], res['outcome'] = out, outcome
 
-    th = threading.Thread(target=body, daemon=True)
-    t0 = time.monotonic()
-    th.start()
-    th.join(RUN_LIMIT)
-    if th.is_alive():
-        return {'hung': True, 'received': None, 'outcome': None, 'elapsed': RUN_LIMIT}
-    res['elapsed'] = round(time.monotonic() - t0, 3)
-    return res
+    obs = []
+    for k in range(c.get('iters', 1)):
+        res = {}
+        W.CALLS.pop(cid, None)
+        th = threading.Thread(target=body, args=(res,), daemon=True)
+        t0 = time.monotonic()
+        th.start()
+        th.join(RUN_LIMIT)
+        if th.is_alive():
+            obs.append({'hung': True, 'received': None, 'outcome': None, 'elapsed': RUN_LIMIT})
+            break
+        res['elapsed'] = round(time.monotonic() - t0, 3)
+        res['calls'] = None if c['mode'] == 'process' else list(W.CALLS.get(cid, []))
+        obs.append(res)
+    W.CALLS.pop(cid, None)
+    return obs
 
 
 def order_oracle(r):
@@ -274,7 +296,7 @@ def order_oracle(r):
         return (f"parmap executor={c['mode']}: the iteration (including closing the iterator) had not ended after {RUN_LIMIT:.0f} s", None)
     exp, fin = expected(c)
     got, oc = o['received'], o['outcome']
-    tag = f"parmap executor={c['mode']} concurrency={c['conc']}"
+    tag = f"parmap executor={c['mode']} concurrency={c['conc']}" + (f" (iteration {c['report_iter'] + 1} of the same stream object)" if c.get('report_iter') else '')
     if oc[0] == 'other':
         return (f'{tag}: the iteration raised {oc[1]}', None)
     sa = c['stop_after']
@@ -284,6 +306,16 @@ def order_oracle(r):
         return (f'{tag}: outputs are not the in-order results of the inputs: received {got}, expected {exp}', None)
     if oc != fin:
         return (f'{tag}: the iteration ended with {oc} after {len(got)} outputs, expected {fin}', None)
+    calls = o.get('calls')
+    if calls is not None:
+        if len(set(calls)) != len(calls):
+            return (f'{tag}: the worker function was called more than once for an input: calls {sorted(calls)}', None)
+        pfk = {int(k) for k in c['pre_fail']}
+        data = [v for k, v in c['src'] if k == 'd']
+        if pfk & set(calls) or set(calls) - set(data):
+            return (f'{tag}: the worker function was called for {sorted((pfk & set(calls)) | (set(calls) - set(data)))} (rejected by the preprocessor, or never an input)', None)
+        if oc == ['completed'] and sorted(calls) != sorted(set(data) - pfk):
+            return (f'{tag}: the iteration completed but the worker function received {sorted(calls)} of the inputs {sorted(set(data) - pfk)}', None)
     return None
 
 
@@ -343,14 +375,22 @@ def main(argv):
                 o = runner(c)
             except BaseException as e:  # noqa
                 o = {'crash': repr(e)[:300]}
-            results[i] = {'cfg': c, 'obs': o, 'oracle': orc(c, o), 'strategy': c['mode'], 'verdict': 'ok'}
+            if what == 'gen':
+                results[i] = [{'cfg': c, 'obs': o, 'oracle': orc(c, o), 'strategy': c['mode'], 'verdict': 'ok'}]
+            else:
+                # one record per iteration of the stream object; a replayed record runs up to its own iteration only
+                obs = o if isinstance(o, list) else [o]
+                only = c.get('report_iter')
+                results[i] = [{'cfg': dict(c, report_iter=k, iters=k + 1), 'obs': ob, 'oracle': None,
+                               'strategy': c['mode'] + ('' if k == 0 else '-again'), 'verdict': 'ok'}
+                              for k, ob in enumerate(obs) if only is None or k == only or k == len(obs) - 1 and 'crash' in ob]
 
     ths = [threading.Thread(target=worker, daemon=True) for _ in range(4)]
     for t in ths:
         t.start()
     for t in ths:
         t.join()
-    json.dump(results, open(outp, 'w'))
+    json.dump([r for rs in results for r in rs], open(outp, 'w'))
     sys.stdout.flush()
     import os
     os._exit(0)
